@@ -123,6 +123,12 @@ class ServicingTrip(VehicleState):
         elif not self.request.membership.grant_access_to_membership(vehicle.membership):
             msg = f"vehicle {vehicle.id} attempting to service request {self.request.id} with mis-matched memberships/fleets"
             return SimulationStateError(msg), None
+        elif vehicle.geoid != request.geoid:
+            # a trip starts only where the request is waiting; the route checks below cannot
+            # show this for a request whose route is empty (origin and destination coincide)
+            msg = f"vehicle {vehicle.id} attempting to service request {self.request.id} but is not at the request's origin"
+            log.warning(msg)
+            return None, None
         elif not route_cooresponds_with_entities(self.route, vehicle.position):
             msg = f"vehicle {vehicle.id} attempting to service request {self.request.id} invalid route (doesn't match location of vehicle)"
             log.warning(msg)
